@@ -295,6 +295,46 @@ def outgoingFlat (s : Store Ω μ) (node : Nat) (numOuts : Nat) : List (Int × P
 def incomingFlat (s : Store Ω μ) (node : Nat) (numInps : Nat) : List (Int × Port) :=
   (List.range numInps).flatMap (fun (k : Nat) => (linkedIn s (node, (k : Int))).map (fun q => ((k : Int), q)))
 
+/-! ### `_hierarchy_order` -/
+
+/-- `heapq.heappop`: the smallest element and the rest (one occurrence removed). -/
+def popMin : List Nat → Option (Nat × List Nat)
+  | [] => none
+  | x :: xs =>
+    match popMin xs with
+    | none => some (x, [])
+    | some (m, rest) => if x ≤ m then some (x, xs) else some (m, x :: rest)
+
+/-- `for child, sibling in zip(children, children[1:]): next_sibling[child.idx] = sibling.idx` -/
+def recordSiblings (ns : Dict Nat Nat) : List Handle → Dict Nat Nat
+  | a :: b :: rest => recordSiblings (Dict.set a.1 b.1 ns) (b :: rest)
+  | _ => ns
+
+/-- The `while ready:` loop of `_hierarchy_order` (`acc` is `order`, oldest first). -/
+def hierLoop (s : Store Ω μ) : Nat → List Nat → Dict Nat Nat → List Nat → Except Err (List Nat)
+  | 0, _, _, acc => .ok acc
+  | fuel + 1, ready, ns, acc =>
+    match popMin ready with
+    | none => .ok acc
+    | some (idx, ready) =>
+      match getNode s idx with
+      | .error e => .error e
+      | .ok d =>
+        let ns := recordSiblings ns d.children
+        let ready := match d.children with
+          | [] => ready
+          | c :: _ => c.1 :: ready
+        match Dict.get idx ns with
+        | some sib => hierLoop s fuel (sib :: ready) (Dict.del idx ns) (acc ++ [idx])
+        | none => hierLoop s fuel ready ns (acc ++ [idx])
+
+/-- `_hierarchy_order()`: every node after its parent and its preceding siblings; nodes outside
+    the root's hierarchy follow in index order. -/
+def hierarchyOrder (s : Store Ω μ) : Except Err (List Nat) :=
+  match hierLoop s (s.nodes.length + 1) [s.root] [] [] with
+  | .error e => .error e
+  | .ok order => .ok (order ++ (liveNodes s).filter (fun i => !order.contains i))
+
 /-! ### insert_hugr -/
 
 /-- `mapping[node_data.parent] if node_data.parent else parent` (`KeyError` → `ParentBeforeChild`). -/
@@ -333,7 +373,8 @@ def insertLinks (s : Store Ω μ) (mp : Dict Nat Nat) : List (SubPort × SubPort
 /-- `insert_hugr(hugr, parent)`; returns the mapping as an ordered dict. -/
 def insertHugr (s : Store Ω μ) (b : Store Ω μ) (parent : Option Nat) :
     Except Err (Store Ω μ × Dict Nat Nat) := do
-  let (s, mp) ← insertNodes s b parent (liveNodes b) []
+  let order ← hierarchyOrder b
+  let (s, mp) ← insertNodes s b parent order []
   let s ← insertLinks s mp b.links.fwd
   pure (s, mp)
 
